@@ -1123,6 +1123,12 @@ func (vc *VC) execRange(st *State, x *ast.RangeStmt) *State {
 
 	var n string // number of iterations (for indexable collections)
 	kind := coll.Sort.Kind
+	var offVar *types.Var // byte offset of a range over a string
+	if kind == KStr {
+		offVar = types.NewVar(x.Pos(), vc.pkg.Types, fmt.Sprintf("__off%d", ord), types.Typ[types.Int])
+		st.vars[offVar] = Term{"0", sortInt}
+		st.names[offVar.Name()] = offVar
+	}
 	switch kind {
 	case KSlice:
 		n = vc.sliceLen(coll)
@@ -1131,8 +1137,12 @@ func (vc *VC) execRange(st *State, x *ast.RangeStmt) *State {
 	case KInt:
 		n = coll.S
 	case KStr:
+		// range over a string: the key is a byte offset advancing by the size (1..4) of the rune decoded there;
+		// runeAt/runeSz are uninterpreted except on ASCII bytes (one byte, the byte itself): A-UTF8 (no decoder model)
 		n = "(slen " + coll.S + ")"
-		vc.note("A-ASCII<" + vc.position(x.Pos()).String() + ">: range over string decodes one byte per rune")
+		vc.U.ensureFun("runeAt", "(Str Int) Int")
+		vc.U.ensureFun("runeSz", "(Str Int) Int")
+		vc.note("A-UTF8<" + vc.position(x.Pos()).String() + ">: range over string: rune value and size at a byte offset are uninterpreted (1..4 bytes, within the string) except for ASCII bytes")
 	case KMap, KFunc:
 		// unordered / iterator: arbitrary number of iterations over arbitrary elements
 	default:
@@ -1240,8 +1250,16 @@ func (vc *VC) execRange(st *State, x *ast.RangeStmt) *State {
 	} else {
 		vc.assume(head, "(<= 0 "+iv.S+")")
 	}
+	var offT Term
+	if offVar != nil {
+		offT = vc.fresh("off", sortInt)
+		head.vars[offVar] = offT
+		vc.assume(head, "(and (<= "+iv.S+" "+offT.S+") (<= "+offT.S+" "+n+") (= (= "+iv.S+" 0) (= "+offT.S+" 0)))")
+	}
 	if keyVar != nil {
-		if indexable && !vc.cellVars[keyVar] {
+		if offVar != nil && !vc.cellVars[keyVar] {
+			head.vars[keyVar] = offT
+		} else if indexable && !vc.cellVars[keyVar] {
 			head.vars[keyVar] = Term{iv.S, vc.U.sortOf(keyVar.Type())}
 		} else {
 			head.vars[keyVar] = vc.fresh(keyVar.Name(), vc.U.sortOf(keyVar.Type()))
@@ -1274,7 +1292,13 @@ func (vc *VC) execRange(st *State, x *ast.RangeStmt) *State {
 	var variant0 string
 	exit := head.clone()
 	body := head
-	if n != "" {
+	if offVar != nil {
+		vc.assume(body, "(< "+offT.S+" "+n+")")
+		vc.assume(exit, "(>= "+offT.S+" "+n+")")
+		sz := "(runeSz " + coll.S + " " + offT.S + ")"
+		vc.assume(body, "(and (<= 1 "+sz+") (<= "+sz+" 4) (<= (+ "+offT.S+" "+sz+") "+n+") (<= 0 (runeAt "+coll.S+" "+offT.S+")) (<= (runeAt "+coll.S+" "+offT.S+") 1114111))")
+		vc.assume(body, "(=> (< (sat "+coll.S+" "+offT.S+") 128) (and (= "+sz+" 1) (= (runeAt "+coll.S+" "+offT.S+") (sat "+coll.S+" "+offT.S+"))))")
+	} else if n != "" {
 		vc.assume(body, "(< "+iv.S+" "+n+")")
 		vc.assume(exit, "(>= "+iv.S+" "+n+")")
 		variant0 = "(- " + n + " " + iv.S + ")"
@@ -1313,10 +1337,10 @@ func (vc *VC) execRange(st *State, x *ast.RangeStmt) *State {
 		}
 	case KStr:
 		if keyVar != nil {
-			vc.writeVar(body, keyVar, Term{iv.S, sortInt})
+			vc.writeVar(body, keyVar, Term{offT.S, sortInt})
 		}
 		if valVar != nil {
-			vc.writeVar(body, valVar, Term{"(sat " + coll.S + " " + iv.S + ")", vc.U.sortOf(valVar.Type())})
+			vc.writeVar(body, valVar, Term{"(runeAt " + coll.S + " " + offT.S + ")", vc.U.sortOf(valVar.Type())})
 		}
 	case KFunc:
 		// range over an iterator: elements satisfy the `yields` clauses of the function that produced it
@@ -1366,8 +1390,14 @@ func (vc *VC) execRange(st *State, x *ast.RangeStmt) *State {
 		if visVar != nil {
 			body.vars[visVar] = Term{"(store " + body.vars[visVar].S + " " + hiddenKey.S + " true)", visSort}
 		}
-		if keyVar != nil && (kind == KSlice || kind == KArr || kind == KInt || kind == KStr) && !vc.cellVars[keyVar] {
+		if offVar != nil {
+			body.vars[offVar] = Term{"(+ " + offT.S + " (runeSz " + coll.S + " " + offT.S + "))", sortInt}
+		}
+		if keyVar != nil && (kind == KSlice || kind == KArr || kind == KInt) && !vc.cellVars[keyVar] {
 			body.vars[keyVar] = Term{body.vars[idxVar].S, vc.U.sortOf(keyVar.Type())}
+		}
+		if keyVar != nil && kind == KStr && !vc.cellVars[keyVar] {
+			body.vars[keyVar] = body.vars[offVar]
 		}
 		for k, stp := range ls.Steps {
 			t := vc.specIn(body, stp)
